@@ -261,7 +261,7 @@ pub static C13: CheckDef = CheckDef {
     run: run_all,
     stack_mb: 32,
     item_timeout_s: 900,
-    wall_cap_s: (55, 1700),
+    wall_cap_s: (55, 3600),
     shards: 0,
 };
 
